@@ -43,7 +43,13 @@ def gen_cnf(rng, allow_empty=False):
     vals = []
     for _ in range(n):
         k = rng.randint(0 if allow_empty else 1, min(4, nv))
-        vals.append(gen_lits(rng, k, nv))
+        cl = gen_lits(rng, k, nv)
+        # legal DIMACS / CNF(...) input: a literal repeated inside a clause, a variable with both signs
+        if cl and rng.random() < 0.25:
+            cl.insert(rng.randrange(len(cl) + 1), rng.choice(cl))
+        if cl and rng.random() < 0.08:
+            cl.append(-rng.choice(cl))
+        vals.append(cl)
     return vals, nv
 
 
@@ -402,6 +408,9 @@ def oracle_c28(ctx, budget_s):
         while ctx.elapsed() < t_end:
             nv = rng.randint(1, 7)
             vals = [gen_lits(rng, rng.randint(1, min(3, nv)), nv) for _ in range(rng.randint(0, 5))]
+            for cl in vals:
+                if rng.random() < 0.3:          # repeated literal (also a negated one) inside a clause
+                    cl.insert(rng.randrange(len(cl) + 1), rng.choice(cl))
             reqs = gen_reqs(rng, nv)
             sol = gen_lits(rng, rng.randint(1, nv), nv)
             r = c28_case(vals, reqs, nv, tmp, sol)
